@@ -32,11 +32,15 @@ TRUSTED_BASE = [
     "jax.value_and_grad / jvp compute the gradient and Hessian-vector product of the generated polynomial (driver "
     "differentiates the polynomial symbolically)",
     "IEEE rounding, XLA, lax.while_loop/cond: executed, not modelled"]
-ASSUMPTIONS = ["NaN handling, time_threshold, logging, nfev/njev/nhev not modelled",
-               "CG stopping parameters derived from the energy history (cg_absdelta, cg_resnorm with norm_ord=1) are not "
-               "modelled: in model-compared cases the CG configuration is pinned through cg_kwargs",
+ASSUMPTIONS = ["time_threshold, logging, njev/nhev not modelled (nfev is compared: 1 + number of line-search trials)",
+               "NaN: modelled as a region predicate of the objective (NaN trials rejected, NaN start raises); NaN gradients and "
+               "NaN inside _trust_ncg are outside the model",
+               "CG stopping parameters derived from the energy history and the gradient magnitude are modelled "
+               "(eagerCgArgs/staticCgArgs, cgCfgOf); norm_ord of the inner CG in {1, inf} (default 1) or pinned to 2 with a "
+               "fixed resnorm through cg_kwargs",
                "_trust_ncg: decision logic modelled with the sub-problem solver as an oracle; tie by replaying the recorded "
-               "answers of the real _cg_steihaug_subproblem (host callback) through the model"]
+               "answers of the real _cg_steihaug_subproblem (host callback) through the model; runs whose sub-problem answers "
+               "are non-finite (mixed-norm boundary case of the sub-problem solver) are outside the rational model"]
 
 XTOL = 1e-6
 MARGIN = 1e-7
